@@ -354,6 +354,18 @@ def run(chk: Check, eng: Engine) -> None:
     if rows < 25:
         raise AnalysisError(f"only {rows} operator-table rows recovered from SearchProcessor")
     literal_decoding(chk, eng, "R08-d")
+    chk.rule("R08-e", "a constant-index context accessor ctx.X(k) is used only where slot k of X is fixed by the rule (no earlier optional occurrence)", floor=10)
+    # the selector sub-language (<a>.<b>[..]{..}) belongs to C07; stop the closure where embedded Python starts again
+    selector_rules: set[str] = set()
+    todo_ = ["selector_length", "star_selection", "dot_selection"]
+    stop_ = {"expression", "slices", "arguments", "genexp", "named_expression", "expr"}
+    while todo_:
+        r_ = todo_.pop()
+        if r_ in selector_rules or r_ in stop_ or r_ not in pg.rules:
+            continue
+        selector_rules.add(r_)
+        todo_.extend(pg.refs(r_))
+    ordinal_accessor_rule(chk, eng, "R08-e", ["SearchProcessor", "PythonProcessor"], exclude_rules=selector_rules)
     chk.extra["cpython_tables"] = {k: len(v) for k, v in tables.items()}
 
 
@@ -366,6 +378,121 @@ PARAM_ROLES = {
     "lambda_param_with_default": {"args", "defaults"},
     "lambda_param_maybe_default": {"kwonlyargs", "kw_defaults"},
 }
+
+
+def ordinal_accessor_rule(chk: Check, eng: Engine, rule: str, class_names: list[str], only_rules=None, exclude_rules=None, min_sites: int = 10) -> None:
+    """ANTLR's `ctx.X(k)` returns the k-th X that is *present*.  When an earlier occurrence of X in the rule is
+    optional, the k-th present occurrence is not the k-th slot (`[:2]` has one NUMBER: it is NUMBER(0) although it
+    fills the second slot).  A handler may use a constant index only if all earlier slots of X are mandatory and slot
+    k itself is mandatory or the last one; otherwise it has to walk the children."""
+    pg = g4.load(eng, "Parser")
+
+    def slots(rule_name: str, what: str) -> list[list[bool]]:
+        """per alternative: optional-flags of the occurrences of `what` (token or rule), in order."""
+        out = []
+
+        def walk(elems, opt: bool, acc: list):
+            for e in elems:
+                o = opt or e.quant in ("?", "*")
+                if e.kind == "group":
+                    multi = len(e.alts) > 1
+                    for a in e.alts:
+                        walk(a, o or multi, acc)
+                    if e.quant in ("*", "+"):
+                        # repeated group: further occurrences are optional
+                        for a in e.alts:
+                            walk(a, True, acc)
+                elif e.value == what or (e.kind == "lit" and False):
+                    acc.append(o)
+                    if e.quant in ("*", "+"):
+                        acc.append(True)
+
+        for alt in pg.rules[rule_name].alts:
+            acc: list[bool] = []
+            walk(alt, False, acc)
+            toks = {e.value for e in _flat(alt) if e.kind == "token"} | {lit_to_token(e.value) for e in _flat(alt) if e.kind == "lit"}
+            out.append((acc, toks))
+        return out
+
+    lg = g4.load(eng, "Lexer")
+    lit2tok = {}
+    for tn in lg.rules:
+        lt = lg.token_literal(tn)
+        if lt is not None:
+            lit2tok.setdefault(lt, tn)
+
+    def lit_to_token(lit: str) -> str:
+        return lit2tok.get(lit[1:-1], lit)
+
+    def _flat(elems):
+        for e in elems:
+            if e.kind == "group":
+                for a in e.alts:
+                    yield from _flat(a)
+            else:
+                yield e
+
+    n = 0
+    mod = eng.module(CONVERT)
+    for cn in class_names:
+        c = mod.classes.get(cn)
+        if c is None:
+            continue
+        for name, m in sorted(c.methods.items()):
+            if not name.startswith("visit") or len(name) <= 5:
+                continue
+            r = name[5:]
+            rule_name = r[0].lower() + r[1:]
+            if rule_name not in pg.rules:
+                continue
+            if only_rules is not None and rule_name not in only_rules:
+                continue
+            if exclude_rules is not None and rule_name in exclude_rules:
+                continue
+            from ..core import parents_map, ancestors as _anc
+
+            pmap = parents_map(m.node)
+            walks_children = any(isinstance(x, ast.Call) and call_name(x) in ("getChildren", "getChild") for x in walk_local(m.node)) or \
+                any(isinstance(x, ast.Attribute) and x.attr == "children" and isinstance(x.value, ast.Name) and x.value.id == "ctx" for x in walk_local(m.node))
+            for x in walk_local(m.node):
+                if isinstance(x, ast.Call) and isinstance(x.func, ast.Attribute) and isinstance(x.func.value, ast.Name) and x.func.value.id == "ctx" \
+                        and len(x.args) == 1 and isinstance(x.args[0], ast.Constant) and isinstance(x.args[0].value, int):
+                    what = x.func.attr
+                    what_rule = accessor_to_rule(what, pg.rules) or what
+                    k = x.args[0].value
+                    amb = None
+                    # token guards on the path: `if ctx.COLON(): ... else: ...`
+                    pos_g, neg_g = set(), set()
+                    child = x
+                    for a_ in _anc(pmap, x):
+                        if isinstance(a_, ast.If):
+                            t_ = a_.test
+                            neg_ = False
+                            if isinstance(t_, ast.UnaryOp) and isinstance(t_.op, ast.Not):
+                                t_, neg_ = t_.operand, True
+                            if isinstance(t_, ast.Call) and isinstance(t_.func, ast.Attribute) and isinstance(t_.func.value, ast.Name) and t_.func.value.id == "ctx" and t_.func.attr.isupper() and not t_.args:
+                                in_body = any(child is b_ or any(child is y_ for y_ in ast.walk(b_)) for b_ in a_.body)
+                                (pos_g if in_body != neg_ else neg_g).add(t_.func.attr)
+                        child = a_
+                    for flags, toks in slots(rule_name, what_rule):
+                        if (pos_g - toks) or (neg_g & toks):
+                            continue  # this alternative is excluded by the guards around the accessor
+                        if len(flags) <= 1 or k >= len(flags):
+                            continue
+                        if any(flags[:k]) or (flags[k] and k < len(flags) - 1):
+                            amb = flags
+                    n += 1
+                    if amb is None:
+                        chk.ok(rule, m.fq, x.lineno, f"`{short(x)}` in rule `{rule_name}`: slot {k} of `{what_rule}` is determined by position", nontrivial=False)
+                    elif walks_children and False:
+                        pass
+                    else:
+                        chk.bad(rule, eng.relfile(m), x.lineno, m.fq,
+                                f"`{short(x)}`: rule `{rule_name}` has optional occurrences of `{what_rule}` (optional flags per slot: {amb}), so the {k}-th present one is not slot {k}",
+                                "when an earlier optional part is omitted the handler assigns the value to the wrong role: `<x>[:2]` is read as `<x>[2:]`",
+                                keyparts=f"ordinal-accessor|{rule_name}|{what_rule}|{k}")
+    if n < min_sites:
+        raise AnalysisError(f"only {n} constant-index context accessors found")
 
 
 def literal_decoding(chk: Check, eng: Engine, rule: str) -> None:
